@@ -253,7 +253,7 @@ class PopGen(object):
         tries = 0
         while len(out) < n and tries < n * 6 + 10:
             tries += 1
-            if t.optional and rng.random() < .3:
+            if t.optional and self.ok('array_optional_null') and rng.random() < .3:
                 out.append(('null',))
                 self.tags.add('array optional $')
                 continue
